@@ -63,9 +63,11 @@ Section Level.
     let x := snd p in
     if negb (f_exported m) then
       (* !IsExported(): continue - except that an embedded struct / non-nil *struct of an unexported type is
-         entered, because its exported fields are promoted and serialised (since commit d415afb); the field's
-         own tag is not looked at *)
+         entered, because its exported fields are promoted and serialised (since commit d415afb); a secure tag on
+         the embedded field itself wipes every promoted field (since commit ea18f48) *)
       if f_embedded m then
+        if has_secure (f_tag m) then Ok (m, wipe_embedded x)       (* wipeEmbedded(val.Field(i)): the embedded field cannot be set, its promoted fields can *)
+        else
         match x with
         | VStruct _ | VTime _ => q <- rec_struct (VPtr (Some x)) ;; s <- deref q ;; Ok (m, s)   (* secureStruct(val.Field(i).Addr()) *)
         | VPtr (Some y) =>
